@@ -17,7 +17,7 @@ SPECIAL_BYTES = b"\n\r\t +-.0123456789=\x01\x00\x0b\x0c\x85\xa0"
 MALFORMED = ["bodylen_alpha", "bodylen_neg", "bodylen_huge", "cks_alpha", "tag_alpha", "no_equals",
              "empty_field", "wrong_order", "truncated", "wrong_begin", "blob",
              "odd_dup_tag", "odd_tag_after_group", "odd_group_structure", "odd_random_tags", "hdr_value_alpha",
-             "odd_huge_number", "bodylen_giant"]
+             "odd_huge_number", "bodylen_giant", "tag_intlike"]
 # tags of the FIX 4.4 repeating-group table (count tags and members, nested ones included) + plain ones
 ODD_POOL = ["453", "448", "447", "452", "802", "523", "803", "454", "455", "456", "555", "600", "539", "524", "525",
             "538", "804", "545", "805", "136", "137", "138", "139", "78", "79", "80", "11", "55", "54", "38", "44",
@@ -103,6 +103,7 @@ class StreamSim(PeerSim):
         self.follow_sent = False
         self.n_corrupt = 0
         self.n_malformed = 0
+        self.grammar_malformed = set()
         self.plan = []  # frames of the burst: dict(kind, frame, id, reqid)
         self.stream_len = 0
         self.cut_state = 0
@@ -410,6 +411,8 @@ class StreamSim(PeerSim):
             # sequence whose only demand on the decoder is that it neither raises nor blocks
             if kind == "odd_dup_tag":
                 body = [("11", "ODD"), ("55", "A"), ("54", "1"), ("55", "B")]
+                if r.random() < 0.3:
+                    body = [("11", "ODD"), ("35", "8"), ("55", "A")]  # MsgType itself a second time
             elif kind == "odd_tag_after_group":
                 body = [("11", "ODD"), ("55", "A"), ("454", "1"), ("455", "x"), ("456", "y"), ("55", "B")]
             elif kind == "odd_group_structure":
@@ -463,6 +466,11 @@ class StreamSim(PeerSim):
             fr = refframer.build("D", body, cks="a1c", **base)
         elif kind == "tag_alpha":
             fr = refframer.build("D", body + [("x7y", "1")], **base)
+            self.grammar_malformed.add(fr)
+        elif kind == "tag_intlike":
+            # self-consistent frame (BodyLength, CheckSum right) whose tag is something int() accepts but FIX does not
+            fr = refframer.build("D", body + [(r.choice(["+44", " 44", "44 ", "4_4", "-0", "\t44", "+0044"]), "1")], **base)
+            self.grammar_malformed.add(fr)
         elif kind == "no_equals":
             good = refframer.build("D", body, **base)
             i = good.find(b"\x0155=")
@@ -595,6 +603,9 @@ class StreamSim(PeerSim):
                 # last so that it masks no other clause of the same run
                 if deferred is None:
                     deferred = v
+            if raw in self.grammar_malformed:
+                raise Violation("malformed-frame-accepted", "C10/non-numeric-tag-accepted",
+                                f"decoder returned a frame whose tag is not a number: {raw[-60:]!r}")
             if raw not in sent:
                 self.probe("accepted_consistent_frame_never_sent_as_such")
         dead = self.dead_tasks()
